@@ -1,7 +1,62 @@
-import Atomman.Prelude
-open Atomman
+import Atomman.C05
+open Atomman Atomman.C05
 
-/-- stub: replaced when the C05 model is built. -/
-def handleC05 (_toks : List String) : String := err "op"
+/-
+  line protocol (all numbers exact rationals):
+    wrap px py pz n  v00 … v22  o0 o1 o2  x0 y0 z0 … (3n numbers)
+      -> "vects(9) origin(3) | pos(3n) | flags(3n) | spos(3n)"
+    norm px py pz n  v00 … v22  o0 o1 o2  x0 y0 z0 …
+      -> "vects(9) origin(3) | pos(3n) | flags(3n) | transform(9) | spos in the (flipped) old box (3n) | flipped(0/1)"
+  errors: err:format (malformed line), err:value (singular cell or no atoms),
+          err:assert (an assertion of the code fails: box lengths not positive, transform not orthonormal)
+-/
+
+def chunk3 : List Rat → List (V3 Rat)
+  | a :: b :: c :: rest => ⟨a, b, c⟩ :: chunk3 rest
+  | _ => []
+
+def flat (l : List (V3 Rat)) : List Rat := l.flatMap V3.toList
+def flatI (l : List (V3 Int)) : List Int := l.flatMap V3.toList
+
+structure Req where
+  pbc : V3 Bool
+  box : Box Rat
+  pos : List (V3 Rat)
+
+def parseReq (px py pz n : String) (rest : List String) : Option Req :=
+  match parseBool? px, parseBool? py, parseBool? pz, n.toNat?, parseRats? rest with
+  | some px, some py, some pz, some n, some xs =>
+    if xs.length ≠ 12 + 3 * n then none else
+    match M3.ofList? (xs.take 9), V3.ofList? ((xs.drop 9).take 3) with
+    | some v, some o => some ⟨⟨px, py, pz⟩, ⟨v, o⟩, chunk3 (xs.drop 12)⟩
+    | _, _ => none
+  | _, _, _, _, _ => none
+
+def showBox (b : Box Rat) : String := showRats (b.vects.toList ++ b.origin.toList)
+
+def handleC05 (toks : List String) : String :=
+  match toks with
+  | "wrap" :: px :: py :: pz :: n :: rest =>
+    match parseReq px py pz n rest with
+    | none => err "format"
+    | some r =>
+      if M3.det r.box.vects = 0 || r.pos.isEmpty then err "value" else
+      let w := wrap Rat.floor pad001 r.box r.pbc r.pos
+      showBox w.box ++ " | " ++ showRats (flat w.pos) ++ " | " ++ showInts (flatI w.flags) ++ " | "
+        ++ showRats (flat (r.pos.map r.box.cartToRel))
+  | "norm" :: px :: py :: pz :: n :: rest =>
+    match parseReq px py pz n rest with
+    | none => err "format"
+    | some r =>
+      if M3.det r.box.vects = 0 || r.pos.isEmpty then err "value" else
+      match normalize? Rat.floor pad001 ratSqrt r.box r.pbc r.pos with
+      | none => err "assert"
+      | some z =>
+        if !transformOK z.transform then err "assert" else
+        let b1 := flip r.box
+        showBox z.box ++ " | " ++ showRats (flat z.pos) ++ " | " ++ showInts (flatI z.flags) ++ " | "
+          ++ showRats z.transform.toList ++ " | " ++ showRats (flat (r.pos.map b1.cartToRel)) ++ " | "
+          ++ showBool (decide (triple r.box.vects < 0))
+  | _ => err "op"
 
 def main : IO Unit := runDriver handleC05
